@@ -29,6 +29,7 @@ type Edge struct {
 	Role  string `json:"role"`
 	To    int    `json:"to"`
 	Title string `json:"title,omitempty"` // org.opencontainers.image.title on the descriptor in the manifest
+	URLs  bool   `json:"urls,omitempty"`  // the descriptor in the manifest carries the optional urls field (a mirror)
 }
 
 // NodeSpec describes one node. Kind is blob, foreign, manifest, dmanifest,
@@ -82,6 +83,9 @@ func (g *Graph) EdgeDescs(n int) []ocispec.Descriptor {
 		d := g.Descs[e.To]
 		if e.Title != "" {
 			d.Annotations = map[string]string{ocispec.AnnotationTitle: e.Title}
+		}
+		if e.URLs {
+			d.URLs = []string{"https://mirror.example/" + d.Digest.Encoded()}
 		}
 		out = append(out, d)
 	}
@@ -156,6 +160,9 @@ func BuildWith(nodes []NodeSpec, salt string, blobs [][]byte) (*Graph, error) {
 					d := g.Descs[e.To]
 					if e.Title != "" {
 						d.Annotations = map[string]string{ocispec.AnnotationTitle: e.Title}
+					}
+					if e.URLs {
+						d.URLs = []string{"https://mirror.example/" + d.Digest.Encoded()}
 					}
 					out = append(out, d)
 				}
@@ -269,6 +276,7 @@ type ShapeOpts struct {
 	Empty    bool // allow empty blobs
 	Alias    bool // allow the same bytes under two media types
 	Titles   bool // give layer/blob descriptors a title annotation (file store names)
+	URLs     bool // give some layer/blob descriptors of ordinary media types the optional urls field
 }
 
 // ShapeFromSucc turns an abstract successor relation (succ[k] ⊆ 1..k-1) into
@@ -389,6 +397,15 @@ func ShapeFromSucc(succ [][]int, rng *rand.Rand, o ShapeOpts) []NodeSpec {
 				if nodes[j].Kind == "blob" && !nodes[j].Empty && nodes[j].Alias == 0 && !taken {
 					nodes[k].Alias = j
 					break
+				}
+			}
+		}
+	}
+	if o.URLs {
+		for k := 1; k <= n; k++ {
+			for i, e := range nodes[k].Edges {
+				if (e.Role == "layer" || e.Role == "blob") && nodes[e.To].Kind == "blob" && rng.Intn(3) == 0 {
+					nodes[k].Edges[i].URLs = true
 				}
 			}
 		}
